@@ -20,6 +20,7 @@ import (
 	"math/rand/v2"
 	"net"
 	"net/netip"
+	"path/filepath"
 	"sort"
 	"strconv"
 	"strings"
@@ -107,6 +108,7 @@ type worldCfg struct {
 	Have    []int  // pieces the local store holds (verified) before anything connects
 	Magnet  bool   // metadata unknown at start
 	Webseed bool
+	EventCap  int  // capacity of the torrent's event queue (0 = 512 as in the code)
 	AutoDrain bool // deliver torrent events automatically after every stimulus
 	IdleRate  int  // config.IdleRate (0 = idle prefetch off)
 	InfoSize  int  // magnet worlds: size of the generated info dictionary (0 = natural)
@@ -136,6 +138,10 @@ type World struct {
 	haves     map[uint32]int // TorHave(true) events handled, per piece
 	readers   []*wreader
 	chans     []*wchan
+	evictions int
+	wedged    bool // a step of the loop never returned
+	idle      time.Duration   // virtual time that has passed since the last transition that was not a pure time step
+	home      map[string]bool // control states (stack signatures) of storrent's goroutines when the world was built
 }
 
 type wchan struct {
@@ -204,6 +210,7 @@ type remote struct {
 	unchokedByStorrent bool
 	pendingUp          []rc.Msg // our requests storrent may still answer
 	cancelledUp        []rc.Msg // requests we cancelled (a Fast peer acknowledges with a reject)
+	crossedUp          []rc.Msg // cancelled requests whose Piece storrent had already committed to its writer
 	sentInterested     bool
 	served             int
 	metaReqs           []uint32 // ut_metadata requests received from storrent, unanswered
@@ -459,7 +466,11 @@ func newWorld(cfg worldCfg) *World {
 		panic(err)
 	}
 	t.Log = discardLog
-	t.Event = make(chan peer.TorEvent, 512)
+	evcap := 512
+	if cfg.EventCap > 0 {
+		evcap = cfg.EventCap
+	}
+	t.Event = make(chan peer.TorEvent, evcap)
 	t.Done = make(chan struct{})
 	t.Deleted = make(chan struct{})
 	t.rand = rand.New(rand.NewPCG(1, 2))
@@ -517,7 +528,11 @@ func (w *World) addPeer(i int, pc peerCfg) {
 	}
 }
 
-// handle calls the real handleEvent for one event, as the loop would.
+// handle calls the real handleEvent for one event, as the loop would.  The
+// handler runs on its own goroutine so that one that never returns (a blocking
+// exchange with a peer that will never answer) is a finding with a history
+// instead of a hung worker: ten minutes of virtual time is far beyond every
+// timeout in the code.
 func (w *World) handle(e peer.TorEvent) {
 	if w.loopDead {
 		return
@@ -527,17 +542,39 @@ func (w *World) handle(e peer.TorEvent) {
 		defer func() { w.haves[h.Index]++ }()
 	}
 	var err error
-	func() {
+	name := fmt.Sprintf("%T", e)
+	if !w.guarded("handleEvent/"+name, "tor.handleEvent("+name+")", func() { err = handleEvent(w.ctx, w.t, e) }) {
+		return
+	}
+	if err != nil {
+		w.loopDead = true
+	}
+}
+
+// guarded runs one step of the torrent loop with panic capture and a
+// virtual-time watchdog; it reports whether the step returned.
+func (w *World) guarded(key, what string, f func()) bool {
+	done := make(chan struct{})
+	go func() {
+		defer close(done)
 		defer func() {
 			if p := recover(); p != nil {
-				w.problem("C05", "C05/panic/handleEvent/"+fmt.Sprintf("%T", e)+"/"+firstLine(fmt.Sprint(p)), "tor.handleEvent(%T) panicked: %v", e, p)
+				w.problem("C05", "C05/panic/"+key+"/"+firstLine(fmt.Sprint(p)), "%s panicked: %v", what, p)
 				w.loopDead = true
 			}
 		}()
-		err = handleEvent(w.ctx, w.t, e)
+		f()
 	}()
-	if err != nil {
+	tm := time.NewTimer(10 * time.Minute)
+	select {
+	case <-done:
+		tm.Stop()
+		return true
+	case <-tm.C:
+		w.problem("C05", "C05/loop-hangs/"+key, "%s did not return within ten minutes of virtual time: the torrent's loop is stuck and the whole torrent with it", what)
 		w.loopDead = true
+		w.wedged = true
+		return false
 	}
 }
 
@@ -551,15 +588,9 @@ func firstLine(s string) string {
 	return s
 }
 
-// call runs one of the loop's timer bodies with panic capture.
+// call runs one of the loop's timer bodies (same guard as handle).
 func (w *World) call(name string, f func()) {
-	defer func() {
-		if p := recover(); p != nil {
-			w.problem("C05", "C05/panic/"+name+"/"+firstLine(fmt.Sprint(p)), "%s panicked: %v", name, p)
-			w.loopDead = true
-		}
-	}()
-	f()
+	w.guarded(name, name, f)
 }
 
 // deliver hands pending events to the torrent: at most max of them (max<0: all,
@@ -611,6 +642,12 @@ func (w *World) judgeRead(i int, rd *wreader) {
 	} else if rd.n > 0 && !bytes.Equal(rd.buf[:rd.n], w.truth[rd.off+rd.pos:rd.off+rd.pos+int64(rd.n)]) {
 		w.problem("C02", "C02/read-wrong-bytes", "reader %d at position %d returned %d bytes that differ from the true content", i, rd.pos, rd.n)
 		w.problem("C01", "C01/reader-wrong-bytes", "reader %d at position %d returned %d bytes that differ from the true content", i, rd.pos, rd.n)
+	}
+	if rd.n == 0 && rd.err == nil && len(rd.buf) > 0 && rd.pos < rd.ln && rd.ctx.Err() == nil && w.evictions == 0 && !w.loopDead {
+		// Read came back empty-handed without an error: its wait was ended
+		// although the piece was not verified.  (Only after an eviction is an
+		// empty read legitimate: the piece it had seen complete is gone.)
+		w.problem("C10", "C10/woken-without-verification", "reader %d at position %d: Read returned 0 bytes and no error although the piece it waits for has not been verified, nothing was evicted and its context is live", i, rd.pos)
 	}
 	rd.pos += int64(rd.n)
 	if rd.err == io.EOF && rd.pos != rd.ln {
@@ -902,7 +939,19 @@ func (r *remote) onFrame(m rc.Msg, raw []byte) {
 			}
 		}
 		key := fmt.Sprintf("%d/%d/%d", m.Index, m.Begin, len(m.Data))
+		crossed := false
 		if k < 0 {
+			for j, q := range r.crossedUp {
+				if q.Index == m.Index && q.Begin == m.Begin && int(q.Length) == len(m.Data) {
+					r.crossedUp = append(r.crossedUp[:j], r.crossedUp[j+1:]...)
+					crossed = true
+					break
+				}
+			}
+		}
+		if crossed {
+			// sent before our Cancel was read
+		} else if k < 0 {
 			w.problem("C16", "C16/piece-unrequested", "Piece %s sent to remote %d matches no request that is pending (not cancelled, not choked away, not already answered)", key, r.idx)
 		} else {
 			r.pendingUp = append(r.pendingUp[:k], r.pendingUp[k+1:]...)
@@ -973,6 +1022,14 @@ func (w *World) apply(tr string) bool {
 			return v
 		}
 		return 0
+	}
+	switch f[0] {
+	case "adv":
+		w.idle += time.Duration(arg(1)) * time.Second
+	case "advms":
+		w.idle += time.Duration(arg(1)) * time.Millisecond
+	default:
+		w.idle = 0
 	}
 	var r *remote
 	if len(f) > 1 && arg(1) < len(w.remotes) && strings.IndexAny(f[0][:1], "abcdefghijklmnopqrstuvwxyz") == 0 {
@@ -1206,6 +1263,21 @@ func (w *World) apply(tr string) bool {
 			return false
 		}
 		q := r.pendingUp[0]
+		// a Cancel can cross a Piece: if storrent has already taken the request
+		// out of its upload queue (the Piece is with the writer, or on the wire
+		// of a remote that has stopped reading) the answer is still an answer
+		// to a request that had not been cancelled when it was sent
+		queued := false
+		if !r.exited() {
+			for _, u := range r.p.VerifState().Upload {
+				if u.Index == q.Index && u.Begin == q.Begin && u.Length == q.Length {
+					queued = true
+				}
+			}
+		}
+		if !queued {
+			r.crossedUp = append(r.crossedUp, q)
+		}
 		r.send(rc.Msg{Kind: rc.Cancel, Index: q.Index, Begin: q.Begin, Length: q.Length})
 		r.pendingUp = r.pendingUp[1:]
 		r.cancelledUp = append(r.cancelledUp, q)
@@ -1468,6 +1540,7 @@ func (w *World) apply(tr string) bool {
 		if cnt == 0 {
 			return false
 		}
+		w.evictions++
 	case "cmd": // cmd:<remote>:<chunk>  the scheduler commands this peer to fetch one more block (real request())
 		c := uint32(arg(2))
 		if r.exited() || int(c) >= w.g.nchunks() || !r.adv[c/w.g.cpp()] || w.t.Pieces.Complete(c/w.g.cpp()) {
@@ -1768,6 +1841,75 @@ func (w *World) dispose() {
 	}
 }
 
+// ctlSigs returns the control state of storrent's own goroutines in this
+// bubble: for each goroutine that has frames in repository code (not harness
+// code), the file:line list of those frames.  The world is quiescent when this
+// is called (synctest.Wait has returned), so every goroutine is parked and the
+// dump is stable.
+var stackBuf = make([]byte, 4<<20)
+
+func ctlSigs() []string {
+	n := runtime.Stack(stackBuf, true)
+	var sigs []string
+	for _, g := range strings.Split(string(stackBuf[:n]), "\n\n") {
+		nl := strings.IndexByte(g, '\n')
+		if nl < 0 || !strings.Contains(g[:nl], "synctest bubble") {
+			continue
+		}
+		var fr []string
+		for _, l := range strings.Split(g[nl+1:], "\n") {
+			if !strings.HasPrefix(l, "\t") || strings.Contains(l, "zz_verif") || strings.Contains(l, "zzverif") {
+				continue
+			}
+			l = strings.TrimSpace(l)
+			if sp := strings.IndexByte(l, ' '); sp >= 0 {
+				l = l[:sp]
+			}
+			if isRepoFile(l) {
+				fr = append(fr, l[len(repoRoot):])
+			}
+		}
+		if len(fr) > 0 {
+			sigs = append(sigs, strings.Join(fr, "<"))
+		}
+	}
+	sort.Strings(sigs)
+	return sigs
+}
+
+var repoRoot = func() string {
+	_, f, _, _ := runtime.Caller(0)
+	return filepath.Dir(filepath.Dir(f)) + "/"
+}()
+
+func isRepoFile(l string) bool { return strings.HasPrefix(l, repoRoot) }
+
+// ctl is the part of the deduplication key that the field dump cannot see: where
+// storrent's goroutines are parked (a peer in the middle of a handler, waiting
+// for room in its writer with a timer running, is a different state from the
+// same peer in its main select), and - whenever some goroutine is parked
+// somewhere it was not when the world was built - how much virtual time has
+// passed since the last stimulus (bounds what is left on the timers they wait on).
+func (w *World) ctl() string {
+	sigs := ctlSigs()
+	away := false
+	for _, s := range sigs {
+		if !w.home[s] {
+			away = true
+		}
+	}
+	h := sha1.Sum([]byte(strings.Join(sigs, "\n")))
+	out := fmt.Sprintf("|ctl %x", h[:6])
+	if away {
+		id := w.idle
+		if id > 8*time.Second {
+			id = 8 * time.Second
+		}
+		out += fmt.Sprintf(" idle=%v", id)
+	}
+	return out
+}
+
 // canon is the canonical dump used to deduplicate states.
 func (w *World) canon() string {
 	var sb strings.Builder
@@ -1805,7 +1947,12 @@ func (w *World) canon() string {
 		for _, o := range r.pendingUp {
 			pu = append(pu, fmt.Sprintf("%d/%d/%d", o.Index, o.Begin, o.Length))
 		}
-		fmt.Fprintf(&sb, " ch=%v out=%v pu=%v ubs=%v si=%v adv=%v fs=%v po=%v g=%v mr=%v|", r.choking, out, pu, r.unchokedByStorrent, r.sentInterested, sortedSet(r.adv), sortedSet(r.fastSet), r.pendingOut(), r.grace, r.metaReqs)
+		fmt.Fprintf(&sb, " ch=%v out=%v pu=%v ubs=%v si=%v adv=%v fs=%v po=%v g=%v mr=%v", r.choking, out, pu, r.unchokedByStorrent, r.sentInterested, sortedSet(r.adv), sortedSet(r.fastSet), r.pendingOut(), r.grace, r.metaReqs)
+		if len(r.cancelledUp)+len(r.crossedUp)+len(r.resolvedStalled) > 0 {
+			// monitor state that decides later verdicts
+			fmt.Fprintf(&sb, " cu=%v cx=%v rs=%v", r.cancelledUp, r.crossedUp, r.resolvedStalled)
+		}
+		sb.WriteString("|")
 	}
 	var cons []string
 	for k, v := range w.consumers {
